@@ -15,7 +15,7 @@ REAL_THOROUGH = REAL_QUICK + [
 ]
 
 
-def build_cases(chk, *, n_synth, configs, real, which, budget_s, spec_fn=None):
+def build_cases(chk, *, n_synth, configs, real, which, budget_s, spec_fn=None, reformulate=False):
     """Yield (label, reaction, cfg, model, record)."""
     import ampform
 
@@ -69,6 +69,18 @@ def build_cases(chk, *, n_synth, configs, real, which, budget_s, spec_fn=None):
             rec["cfg"] = {k: (sorted(v) if isinstance(v, (set, frozenset)) else v) for k, v in cfg.items()}
             out.append((label, reaction, cfg, model, rec))
             rid += 1
+            if reformulate:
+                # the same builder, the same configuration, formulated again (history independence of closure)
+                try:
+                    model2 = builder.formulate()
+                    rec2 = U.model_record(rid, reaction, model2, aligned=aligned, do_formula=False, do_parity=False, do_closure=True)
+                except Exception as ex:  # noqa: BLE001
+                    out.append((label + ":again", reaction, cfg, None, {"error": f"{type(ex).__name__}: {ex}"}))
+                    continue
+                rec2["label"] = label + ":again"
+                rec2["cfg"] = rec["cfg"]
+                out.append((label + ":again", reaction, cfg, model2, rec2))
+                rid += 1
     return out
 
 
